@@ -70,4 +70,14 @@ Export == rows = <<>> \/ PrintT(<<"GEN", ToJson([
             load |-> [doc |-> Doc, stream |-> stream, keys |-> << [k |-> Keys[2], t |-> "s"], [k |-> Keys[1], t |-> atype] >>,
                       pol |-> [mm |-> mm], exp |-> ExpLoad,
                       skip |-> (enc # "utf8" \/ bom \/ utfpol # "throw")]])>>)       \* load scenarios do not depend on these: exported once
+\* ---- UTF-16 documents whose supplementary character (a surrogate pair) falls on every alignment against the reader's chunk:
+\*      BOM, header "a", one row  x..x U+1F600 y  (pad = number of x)
+Wide(c) == <<c, 0>>
+RECURSIVE WideAll(_)
+WideAll(cs) == IF cs = <<>> THEN <<>> ELSE Wide(Head(cs)) \o WideAll(Tail(cs))
+WideDoc(pad) == <<255, 254>> \o WideAll(<<97, 13, 10>>) \o WideAll([i \in 1..pad |-> 120]) \o <<61, 216, 0, 222>> \o WideAll(<<121, 13, 10>>)
+ExportWide == (rows = <<>> /\ enc = "utf8" /\ ~bom /\ stream /\ utfpol = "throw" /\ mm = "throw" /\ atype = "s") =>
+                \A pad \in 9..14 :
+                   PrintT(<<"GEN", ToJson([wload |-> [doc |-> WideDoc(pad), stream |-> TRUE, keys |-> << [k |-> Keys[1], t |-> "s"] >>,
+                                                      pol |-> [mm |-> "throw"], exp |-> "none"]])>>)
 =============================================================================
